@@ -36,12 +36,15 @@ type pvNode struct {
 }
 
 type pvWorker struct {
-	cfg   ProvValSet
-	p     *env.Provider
-	tab   Table
-	root  *pvNode
-	stats *engine.Stats
+	cfg    ProvValSet
+	p      *env.Provider
+	tab    Table
+	root   *pvNode
+	stats  *engine.Stats
+	rootVs []V
 }
+
+func (w *pvWorker) RootViolations() []V { return w.rootVs }
 
 const unit = env.PowerReduction
 
@@ -60,9 +63,7 @@ func (c ProvValSet) NewWorker(stats *engine.Stats) (engine.Worker, error) {
 	w := &pvWorker{cfg: c, p: p, stats: stats}
 	w.root = &pvNode{S: p.Root}
 	// genesis oracle: InitChain result vs. reference
-	if vs := w.checkSet(&p.Root, nil, nil, p.InitVals, true); len(vs) > 0 {
-		return nil, fmt.Errorf("genesis check failed: %v", vs)
-	}
+	w.rootVs = w.checkSet(&p.Root, nil, nil, p.InitVals, true)
 	w.build()
 	return w, nil
 }
@@ -292,6 +293,11 @@ func (w *pvWorker) checkSet(s *env.State, prevRecorded []providertypes.Consensus
 	}
 	if err != nil || !ratio.Equal(wantRatio) {
 		vs = append(vs, vf("C15", "view-bonded-ratio", "BondedRatio=%v err=%v, reference %v", ratio, err, wantRatio))
+	}
+	// the view as the assembled app's inflation module sees it
+	mintRatio, err := p.PApp.MintKeeper.BondedRatio(ctx)
+	if err != nil || !mintRatio.Equal(wantRatio) {
+		vs = append(vs, vf("C15", "view-mint-bonded-ratio", "the mint module's BondedRatio=%v err=%v, reference over the consensus validators %v", mintRatio, err, wantRatio))
 	}
 	return vs
 }
